@@ -394,13 +394,18 @@ func (g *c09Gen) helperHistory(name string, tagged [][2]string) {
 	}
 	buf := make([]byte, max) // ONE buffer, refilled for every call
 	input, obs := SL{}, SL{}
+	var in []byte
 	for _, t := range tagged {
 		out, err := exec.Command(self, "inspect1", "--helper", name, hex.EncodeToString([]byte(t[1]))).Output()
 		fresh := "(2)"
 		if err == nil {
 			fresh = strings.TrimSpace(string(out))
 		}
-		in := buf[:copy(buf, t[1])]
+		// tag "same-buffer-again": the helper is called once more on the buffer as the previous
+		// call left it (a helper that edits its argument in place answers differently)
+		if t[0] != "same-buffer-again" || in == nil {
+			in = buf[:copy(buf, t[1])]
+		}
 		input = append(input, SL{S(t[0]), c09_rawSx(fresh)})
 		obs = append(obs, f(in))
 	}
@@ -708,6 +713,14 @@ func (g *c09Gen) helpers() {
 		}
 		g.helperHistory("DecodeAnyBase64", t)
 		g.helperHistory("WhichBase64", t)
+	}
+	// text with line breaks, each looked at twice without refilling the buffer
+	for _, h := range []string{"DecodeAnyBase64", "WhichBase64", "IsBase64ASN1"} {
+		var t [][2]string
+		for _, s := range []string{"MAMC\nAQU=", "MAMC\r\nAQU=\r\n", "MAMCAQU=\n", "MA\nMC\nAQ\nU="} {
+			t = append(t, [2]string{"text-with-line-breaks", s}, [2]string{"same-buffer-again", s})
+		}
+		g.helperHistory(h, t)
 	}
 	// generated: n texts of one length, valid and invalid interleaved
 	alpha := "ABCDEFGHIJKLMNOPQRSTUVWXYZabcdefghijklmnopqrstuvwxyz0123456789"
